@@ -144,6 +144,11 @@ func (w *World) WireCheck(opt WireOptions) []WireFinding {
 					add("C05/keyupdate/v2-uses-v1-ku-label", "datagram #%d (%s): 1-RTT packet pn %d of key generation %d opens only with keys derived with the v1 label \"quic ku\" on a QUIC v2 connection (RFC 9369 3.3.2 requires \"quicv2 ku\")", rec.Seq, rec.Dir, p.PN, p.KeyGen)
 				}
 				k := pnKey{rec.Dir, space(p.Kind), p.PN}
+				if p.Kind != "1rtt" {
+					// a late duplicate of the client's first Initial can make the server start a second connection
+					// attempt with the same Initial keys; long-header packets are told apart by their source connection ID
+					k.space += fmt.Sprintf("/%x", p.SCID)
+				}
 				h := sha256.Sum256(p.Raw)
 				if old, ok := seenPN[k]; ok && old != h {
 					add("C05/wire/pn-reuse", "%s %s packet number %d used for two different packets (second in datagram #%d)", rec.Dir, k.space, p.PN, rec.Seq)
